@@ -670,6 +670,8 @@ PROGRAMS = {
     "align-bytes-reached": [tok("call", "func"), tok("byte"), tok("align", 4), tok("byte"), tok("label", "lbl"), tok("ret")],
     "align-data": [tok("o"), tok("ret"), tok("byte"), tok("align", 8), tok("byte"), tok("label", "d"), tok("word", "obj")],
     "align-first": [tok("align", 16), tok("o"), tok("jmp", "func"), tok("align", 4), tok("align", 8), tok("o2")],
+    # two alignments at one place: the place has to satisfy both, i.e. the stronger one
+    "align-twice": [tok("o"), tok("align", 16), tok("align", 4), tok("o2"), tok("ret")],
     # two labels at one position: a conditional jump to the first one; the pair in front of unreachable data; at the very end
     "jcc-two-labels": [tok("label", "top"), tok("label", "again"), tok("o"), tok("jcc", "top"), tok("jcc", "again"), tok("ret")],
     "two-labels-data": [tok("o"), tok("ret"), tok("label", "a"), tok("label", "b"), tok("byte"), tok("byte")],
